@@ -46,7 +46,13 @@ EXPLANATION = (
     'strings); how many backslashes of a run the regex engine consumes for a concrete text (leftmost/greedy matching); whether a '
     'result that depends on the terminator/indentation reproduces it exactly (only independence is refuted); indentation of '
     '#cmakedefine lines (the code slices line[1:], which observes the indentation); output bytes for '
-    'arbitrary templates.')
+    'arbitrary templates; whether func_configure_file prints the undefined-names warning whenever the returned set is not empty (seed r7-2: the warning made an '
+    '`elif` of the empty-configuration hint while the `confdata_useless` flag is no longer cleared - the interplay of the flag and the two warnings across '
+    'universal.py / interpreter.py is not read by any rule); the name class of the cmake scanner (`character_regex`: seed r7-3 dropped `/ . +` from it - the property '
+    'gives no reference language for cmake names, so no rule compares it); #cmakedefine tables when do_define_cmake hands the look-up of the name to per-directive '
+    'callees (`return helper01(name, ..)` / `return helper(name, tokens, ..)`: R3 ends undecided). R1 also reads re.finditer / re.findall / re.split and '
+    '<pattern>.finditer / findall as placeholder scans, follows values a generator yields and the variables a closure captures; `re.sub` written out as one pass over '
+    'finditer (gap, callback(match), move; rest; joined with the empty string) is read as the re.sub it defines.')
 ASSUMPTIONS = [
     're.sub copies the text outside matches and inserts what the callback returns without scanning it again',
     'ConfigurationData.get raises KeyError for an unset name and returns (value, description) otherwise (build.py, checked in R3)',
